@@ -2492,13 +2492,26 @@ let spec_table k0 k1 kadd kmul ksub kopp khalf kconj idx m h =
 let model_lattice vo cfg h =
   run (=) vo cfg h init
 
+(** val halve_magnetization :
+    'a1 vops -> (int, 'a1) op list -> (int, 'a1) op list **)
+
+let halve_magnetization vo h =
+  map (fun o ->
+    match o with
+    | Preset p ->
+      (match p with
+       | PMagnetization (l, mH) -> Preset (PMagnetization (l, (vo.vhalf mH)))
+       | _ -> o)
+    | _ -> o) h
+
 (** val model_poly :
     'a1 -> ('a1 -> 'a1 -> 'a1) -> ('a1 -> 'a1 -> 'a1) -> ('a1 -> 'a1) -> ('a1
     -> bool) -> 'a1 vops -> (int -> int -> int -> int) -> config -> bool ->
-    (int, 'a1) op list -> 'a1 poly outcome **)
+    bool -> (int, 'a1) op list -> 'a1 poly outcome **)
 
-let model_poly k1 kadd kmul kopp kzero vo idx cfg fixed h =
-  prepare k1 kadd kmul kopp kzero idx fixed (model_lattice vo cfg h)
+let model_poly k1 kadd kmul kopp kzero vo idx cfg fixed mag_half h =
+  prepare k1 kadd kmul kopp kzero idx fixed
+    (model_lattice vo cfg (if mag_half then halve_magnetization vo h else h))
 
 (** val poly_table :
     'a1 -> 'a1 -> ('a1 -> 'a1 -> 'a1) -> ('a1 -> 'a1 -> 'a1) -> ('a1 -> 'a1)
@@ -2551,12 +2564,12 @@ let q_spec_table tbl m h =
     qmul qsub qopp0 qhalf q_id (idx_of tbl m) m h
 
 (** val q_model_poly :
-    (((int * int) * int) * int) list -> int -> config -> bool -> qop list ->
-    q poly outcome **)
+    (((int * int) * int) * int) list -> int -> config -> bool -> bool -> qop
+    list -> q poly outcome **)
 
-let q_model_poly tbl m cfg fixed h =
+let q_model_poly tbl m cfg fixed mag_half h =
   model_poly { qnum = (Zpos XH); qden = XH } qadd qmul qopp0 qzero q_ops
-    (idx_of tbl m) cfg fixed h
+    (idx_of tbl m) cfg fixed mag_half h
 
 (** val q_model_results : config -> qop list -> (int, q) obs outcome list **)
 
@@ -2599,11 +2612,11 @@ let c_spec_table tbl m h =
   spec_table c0 c1 cadd cmul csub copp chalf cconj (idx_of tbl m) m h
 
 (** val c_model_poly :
-    (((int * int) * int) * int) list -> int -> config -> bool -> cop list ->
-    qC poly outcome **)
+    (((int * int) * int) * int) list -> int -> config -> bool -> bool -> cop
+    list -> qC poly outcome **)
 
-let c_model_poly tbl m cfg fixed h =
-  model_poly c1 cadd cmul copp czero c_ops (idx_of tbl m) cfg fixed h
+let c_model_poly tbl m cfg fixed mag_half h =
+  model_poly c1 cadd cmul copp czero c_ops (idx_of tbl m) cfg fixed mag_half h
 
 (** val c_model_results : config -> cop list -> (int, qC) obs outcome list **)
 
